@@ -672,7 +672,19 @@ func c01(c *wk.Ctx) {
 func firstPanicLine(stderr []byte) string {
 	for _, l := range bytes.Split(stderr, []byte("\n")) {
 		if bytes.Contains(l, []byte("[PANIC]")) || bytes.HasPrefix(l, []byte("panic:")) || bytes.HasPrefix(l, []byte("fatal error:")) {
-			return string(truncB(l, 400))
+			// ... with the innermost source position of the panicking goroutine, so that a fault of the harness itself
+			// cannot be mistaken for one of the code under test
+			at := ""
+			if rest := stderr[bytes.Index(stderr, l):]; true {
+				for _, fl := range bytes.Split(rest, []byte("\n")) {
+					fl = bytes.TrimSpace(fl)
+					if bytes.Contains(fl, []byte(".go:")) && !bytes.Contains(fl, []byte("/usr/lib/go")) {
+						at = " at " + string(truncB(fl, 160))
+						break
+					}
+				}
+			}
+			return string(truncB(l, 400)) + at
 		}
 	}
 	return wk.Tail(stderr, 300)
